@@ -539,9 +539,8 @@ pub fn crash_points(trace: &[OpRec]) -> Vec<(usize, bool)> {
 pub fn run(report: &Report, budget: &Budget) {
     let srcs = SrcCache::new();
     let mut scenarios = common::standard_scenarios(&srcs);
-    if report.thorough() {
-        scenarios.extend(crate::c02::depth_states_as_scenarios(&srcs, 2, budget));
-    }
+    // plus every state of the history graph to depth 1 (thorough: 2) as "previous history"
+    scenarios.extend(crate::c02::depth_states_as_scenarios(&srcs, if report.thorough() { 2 } else { 1 }, budget));
     let main_scratch = Scratch::new("c03");
     let mut cases: Vec<(usize, usize, bool)> = Vec::new();
     let mut traces = Vec::new();
